@@ -37,6 +37,8 @@ type envState struct {
 	sentinels  map[string]value
 	fs         *fsModel
 	tmpSeq     int
+	inSpawn    bool
+	sleepBudget int
 }
 
 // scheduler is the Tier C cooperative scheduler (see sched.go).
